@@ -24,7 +24,7 @@ RULE = (
     "bytearray leaves; tuple/list/dict/set/frozenset/harness-object containers, no aliasing, NaN never a key): a base value, "
     "mutants of it (one leaf retyped or changed, one container kind swapped) and independent values.  Each value is hashed "
     "(md5 and sha1) in 4 interpreters with PYTHONHASHSEED 0/1/4242/random x {original order, 2 drawn insertion permutations} "
-    "with one configuration building strings afresh; all 12 digests per algorithm must be equal and no hash may raise.  All "
+    "with one configuration building every str/bytes leaf afresh (equal but distinct objects) and two sharing one object between equal str/bytes leaves; all 12 digests per algorithm must be equal and no hash may raise.  All "
     "pairs of the pool: canon(a)==canon(b) <=> digest(a)==digest(b).  evaluations = pools.  A pool is non-trivial when it "
     "contains a dict/set/frozenset with >=2 elements and a pair of distinct values whose specs differ in exactly one node; "
     "distinct = hash of the pool."
@@ -189,6 +189,18 @@ def pools(draw):
         pool.append(mutate(src, draw(st.integers(0, 40)), draw(st.integers(0, 5))))
     for _ in range(draw(st.integers(0, 2))):
         pool.append(renorm(draw(V.values(max_leaves=5))))
+    # a value in which the same str/bytes content occurs several times (shared vs distinct objects)
+    if draw(st.booleans()):
+        leaf = draw(st.sampled_from([["str", "ab"], ["bytes", "6162"], ["str", "\u00e9\u00e9x"], ["bytes", "000102"], ["str", "a"], ["bytes", "61"]]))
+        how = draw(st.sampled_from(["list", "tuple", "dictval", "nested"]))
+        if how == "list":
+            pool.append(["list", [leaf, leaf, pool[0]]])
+        elif how == "tuple":
+            pool.append(["tuple", [leaf, ["list", [leaf]]]])
+        elif how == "dictval":
+            pool.append(["dict", [[["int", "1"], leaf], [["int", "2"], leaf], [leaf, leaf]]])
+        else:
+            pool.append(["list", [["tuple", [leaf, leaf]], ["obj", "P", [["u", leaf], ["v", leaf]]]]])
     return {"pool": pool, "perms": [draw(st.integers(0, 10 ** 6)) for _ in range(2)]}
 
 
@@ -240,18 +252,19 @@ def run_case(spec):
     for vi, v in enumerate(pool):
         all_md5, all_sha1 = [], []
         for s in range(len(SEEDS)):
-            reqs = [{"spec": v, "perm": p, "fresh": (s == 1 and pi == 1)} for pi, p in enumerate(perms)]
+            reqs = [{"spec": v, "perm": p, "fresh": (s == 1 and pi == 1), "share": (s == 2 and pi == 1) or (s == 0 and pi == 2)}
+                    for pi, p in enumerate(perms)]
             for r, q in zip(_ask(s, reqs), reqs):
                 if "error" in r:
                     raise Violation("joblib.hash raised %s for value %s (PYTHONHASHSEED=%s perm=%s)"
                                     % (r["error"], json.dumps(v), SEEDS[s], q["perm"]), signature=["raises"] + _value_sig(v))
-                all_md5.append((SEEDS[s], q["perm"], q["fresh"], r["md5"]))
-                all_sha1.append((SEEDS[s], q["perm"], q["fresh"], r["sha1"]))
+                all_md5.append((SEEDS[s], q["perm"], "fresh" if q["fresh"] else "shared" if q["share"] else "", r["md5"]))
+                all_sha1.append((SEEDS[s], q["perm"], "fresh" if q["fresh"] else "shared" if q["share"] else "", r["sha1"]))
         for name, alld in (("md5", all_md5), ("sha1", all_sha1)):
             if len(set(d[-1] for d in alld)) != 1:
                 raise Violation(
                     "joblib.hash(%s) of the same value differs across (PYTHONHASHSEED, insertion permutation, fresh strings): %s ; value spec %s"
-                    % (name, sorted(set((d[0], d[1], d[3][:8]) for d in alld), key=repr)[:6], json.dumps(v)),
+                    % (name, sorted(set((d[0], d[1], d[2], d[3][:8]) for d in alld), key=repr)[:8], json.dumps(v)),
                     signature=["nondeterministic"] + _value_sig(v))
         digests.append((all_md5[0][-1], all_sha1[0][-1]))
     canons = [V.canon(v) for v in pool]
